@@ -12,15 +12,13 @@ import (
 	"golang.org/x/tools/go/ssa"
 )
 
-// Thread is a symbolic goroutine: a set of guarded continuations parked at scheduling points.
+// Thread is a symbolic goroutine. Its control state lives in the worlds (see World).
 type Thread struct {
 	ID      int
 	Name    string
 	Key     string // identity that is stable across runs of the same harness
-	conts   []*State
-	index   map[string]*State
-	exit    *Term // guard under which the thread has terminated
-	created *Term // guard under which the thread exists
+	exit    *Term  // guard under which the thread has terminated (after the last Quiesce)
+	created *Term  // guard under which the thread exists
 	Steps   int
 }
 
@@ -60,23 +58,64 @@ type lockRec struct {
 	write bool
 }
 
+// objState is the mutable part of an Object (saved per world).
+type objState struct {
+	Val     Value
+	Elems   []Value
+	Arr     *ArrT
+	Len     *Term
+	Entries []MapEntry
+	ChBuf   []Value
+	ChN     *Term
+	Closed  *Term
+}
+
+type timerState struct {
+	due, active, exists *Term
+	arms                []*Term
+	fn                  *FuncV
+}
+
+// World is one merged symbolic state of the whole program at a product location: every
+// goroutine is parked at a scheduling point (or has exited); all interleavings that lead to the
+// same product location are merged into it (data as ite-terms, G as a disjunction).
+type World struct {
+	stillEnabled bool
+	fired        map[string]int // timer key -> number of dispatches on the way to this world
+	G            *Term
+	key          string
+	threads      []*State // indexed by thread id: parked continuation (nil: not created / exited)
+	exited       []bool
+	heap         map[*Object]*objState
+	clock        *Term
+	timers       []timerState
+	depth        int
+}
+
 type Sched struct {
 	threads  []*Thread
 	timers   []*timerRec
+	worlds   []*World // worlds at the last quiescence (nil before the first Quiesce)
+	pending  []*State // threads started by the harness's main goroutine, not yet in any world
+	objs     []*Object
 	step     int
-	vars     []*Term // sched_i
-	nThreads []int   // domain size per step
 	log      []accessRec
 	Races    bool
 	segments int
-	lastAny  *Term
-	// SlotKeys[i] = identity keys of the slots (threads, then timers) at scheduler step i
-	SlotKeys [][]string
-	// concrete replay: the slot chosen at each step (by key), the resulting trace
-	FixedKeys  []string
-	Trace      []TraceStep
-	PhaseSteps []int
-	nMainGo    int
+	nWorlds  int
+	maxFront int
+	// outcome collection while a segment runs
+	running  bool
+	outcomes []*State
+	exits    []*Term
+	spawned  []*State
+	// concrete replay
+	Trace       []TraceStep
+	PhaseSteps  []int
+	nMainGo     int
+	mainAdvance *Term
+	ChoiceNames []string
+	SlotIDs     map[string]int
 }
 
 // TraceStep is one step of a concrete schedule in creation-order numbering.
@@ -95,9 +134,17 @@ func (ex *Exec) EnableSched(races bool) {
 }
 
 func (ex *Exec) newThread(name string, created *Term) *Thread {
-	th := &Thread{ID: len(ex.sched.threads), Name: name, index: map[string]*State{}, exit: ex.tb.False, created: created}
+	th := &Thread{ID: len(ex.sched.threads), Name: name, exit: ex.tb.False, created: created}
 	ex.sched.threads = append(ex.sched.threads, th)
 	return th
+}
+
+// full conjoins the guard of the world being executed.
+func (ex *Exec) full(g *Term) *Term {
+	if ex.baseG == nil {
+		return g
+	}
+	return ex.tb.And(ex.baseG, g)
 }
 
 // spawn creates a thread that will run fv(args...) once scheduled.
@@ -117,7 +164,7 @@ func (ex *Exec) spawn(st *State, name string, fv *FuncV, args []Value, pos token
 		}
 		var key string
 		if st.thread != nil {
-			// deterministic identity of goroutines started by goroutines (see adopt)
+			// deterministic identity of goroutines started by goroutines
 			ex.position(st)
 			ex.adoptSeq++
 			key = fmt.Sprintf("%s#%d|%s", st.key, ex.adoptSeq, al.Fn.String())
@@ -129,9 +176,9 @@ func (ex *Exec) spawn(st *State, name string, fv *FuncV, args []Value, pos token
 		}
 		th, ok := ex.threadCache[key]
 		if ok {
-			th.created = ex.tb.Or(th.created, g)
+			th.created = ex.tb.Or(th.created, ex.full(g))
 		} else {
-			th = ex.newThread(name, g)
+			th = ex.newThread(name, ex.full(g))
 			th.Key = key
 			ex.threadCache[key] = th
 		}
@@ -145,11 +192,15 @@ func (ex *Exec) spawn(st *State, name string, fv *FuncV, args []Value, pos token
 			panic(ex.unsupported("go of intrinsic/external function %s", al.Fn))
 		}
 		ex.pushFrame(ns, al.Fn, full, al.Bindings, nil, true)
-		ex.parkState(ns)
+		if ex.sched.running {
+			ex.sched.spawned = append(ex.sched.spawned, ns)
+		} else {
+			ex.sched.pending = append(ex.sched.pending, ns)
+		}
 	}
 }
 
-// timerSpawnKey: callbacks of the same timer firing for the same time (k-th firing) are one thread.
+// timerSpawnKey: callbacks of the same arming of a timer are one thread.
 func timerSpawnKey(name string) (string, bool) {
 	if strings.HasPrefix(name, "timer") {
 		return "spawn|" + name, true
@@ -167,21 +218,21 @@ func (ex *Exec) goInstr(st *State, in *ssa.Go) bool {
 
 func (ex *Exec) park(st *State) { ex.parkState(st) }
 
+// parkState records that the running segment stopped at a scheduling point.
 func (ex *Exec) parkState(st *State) {
-	th := st.thread
 	st.resume = false
 	ex.position(st)
-	if old, ok := th.index[st.key]; ok {
-		ex.mergeStates(old, st)
-		return
+	for _, o := range ex.sched.outcomes {
+		if o.key == st.key {
+			ex.mergeStates(o, st)
+			return
+		}
 	}
-	th.index[st.key] = st
-	th.conts = append(th.conts, st)
+	ex.sched.outcomes = append(ex.sched.outcomes, st)
 }
 
 func (ex *Exec) threadExit(fin *State) {
-	th := fin.thread
-	th.exit = ex.tb.Or(th.exit, fin.G)
+	ex.sched.exits = append(ex.sched.exits, fin.G)
 }
 
 // staticCallee returns the name of the statically known callee of a call instruction ("" if none).
@@ -360,9 +411,269 @@ func init() {
 	}
 }
 
-// ---------------------------------------------------------------- scheduler loop
+// ---------------------------------------------------------------- scheduler loop (worlds)
 
-// enabledOf returns the enabledness of a parked continuation.
+func (ex *Exec) trackObj(o *Object) {
+	if ex.sched != nil {
+		ex.sched.objs = append(ex.sched.objs, o)
+	}
+}
+
+// snapshot copies the mutable state of every object, the clock and the timers.
+func (ex *Exec) snapshot(w *World) {
+	w.heap = make(map[*Object]*objState, len(ex.sched.objs))
+	for _, o := range ex.sched.objs {
+		w.heap[o] = &objState{Val: o.Val, Elems: append([]Value(nil), o.Elems...), Arr: o.Arr, Len: o.Len,
+			Entries: o.Entries[:len(o.Entries):len(o.Entries)], ChBuf: append([]Value(nil), o.ChBuf...), ChN: o.ChN, Closed: o.Closed}
+	}
+	w.clock = ex.clock
+	w.timers = make([]timerState, len(ex.sched.timers))
+	for i, tm := range ex.sched.timers {
+		ts := timerState{due: tm.due, active: tm.active, exists: tm.exists, fn: tm.fn}
+		for _, a := range tm.arms {
+			ts.arms = append(ts.arms, a.cur)
+		}
+		w.timers[i] = ts
+	}
+}
+
+func (ex *Exec) restore(w *World) {
+	for o, s := range w.heap {
+		o.Val, o.Arr, o.Len, o.ChN, o.Closed = s.Val, s.Arr, s.Len, s.ChN, s.Closed
+		o.Elems = append(o.Elems[:0:0], s.Elems...)
+		o.Entries = s.Entries
+		o.ChBuf = append(o.ChBuf[:0:0], s.ChBuf...)
+	}
+	ex.clock = w.clock
+	for i, tm := range ex.sched.timers {
+		if i < len(w.timers) {
+			ts := w.timers[i]
+			tm.due, tm.active, tm.exists, tm.fn = ts.due, ts.active, ts.exists, ts.fn
+			for j, a := range tm.arms {
+				if j < len(ts.arms) {
+					a.cur = ts.arms[j]
+				} else {
+					a.cur = ex.tb.False
+				}
+			}
+		} else {
+			// the timer does not exist in this world
+			tm.active, tm.exists = ex.tb.False, ex.tb.False
+			for _, a := range tm.arms {
+				a.cur = ex.tb.False
+			}
+		}
+	}
+}
+
+func (ex *Exec) worldKey(w *World) string {
+	// run-independent: threads are listed by their identity key, not by their id
+	var parts []string
+	for i, st := range w.threads {
+		k := ex.sched.threads[i].Key
+		switch {
+		case i < len(w.exited) && w.exited[i]:
+			parts = append(parts, k+"=e")
+		case st == nil:
+		default:
+			ex.position(st)
+			parts = append(parts, k+"="+st.key)
+		}
+	}
+	for k, n := range w.fired {
+		parts = append(parts, fmt.Sprintf("fired[%s]=%d", k, n))
+	}
+	sort.Strings(parts)
+	return strings.Join(parts, ";")
+}
+
+func (w *World) clone() *World {
+	n := &World{G: w.G, threads: append([]*State(nil), w.threads...), exited: append([]bool(nil), w.exited...), depth: w.depth}
+	if len(w.fired) > 0 {
+		n.fired = make(map[string]int, len(w.fired))
+		for k, v := range w.fired {
+			n.fired[k] = v
+		}
+	}
+	return n
+}
+
+func (w *World) grow(n int) {
+	for len(w.threads) < n {
+		w.threads = append(w.threads, nil)
+		w.exited = append(w.exited, false)
+	}
+}
+
+// mergeValueMaps merges world b into world a (same product location).
+func (ex *Exec) mergeWorlds(a, b *World) {
+	g := a.G
+	tb := ex.tb
+	a.grow(len(b.threads))
+	b.grow(len(a.threads))
+	for i := range a.threads {
+		sa, sb := a.threads[i], b.threads[i]
+		if sa == nil || sb == nil || sa == sb {
+			continue
+		}
+		// merge the continuations under the world guard
+		if len(sa.frames) != len(sb.frames) {
+			ex.position(sa)
+			ex.position(sb)
+			panic(fmt.Sprintf("mergeWorlds: thread %d (%s) frames %d vs %d\n keyA=%s\n keyB=%s\n worldA=%s\n worldB=%s", i, ex.sched.threads[i].Key, len(sa.frames), len(sb.frames), sa.key, sb.key, ex.worldKey(a), ex.worldKey(b)))
+		}
+		sa = ex.fork(sa, sa.G)
+		sa.resume, sa.startup = a.threads[i].resume, a.threads[i].startup
+		ex.mergeStatesG(g, sa, sb)
+		a.threads[i] = sa
+	}
+	for o, sb := range b.heap {
+		sa, ok := a.heap[o]
+		if !ok {
+			a.heap[o] = sb
+			continue
+		}
+		if sa == sb {
+			continue
+		}
+		n := &objState{}
+		n.Val = ex.mergeNil(g, sa.Val, sb.Val)
+		if len(sa.Elems) == len(sb.Elems) {
+			n.Elems = make([]Value, len(sa.Elems))
+			for i := range sa.Elems {
+				n.Elems[i] = ex.mergeNil(g, sa.Elems[i], sb.Elems[i])
+			}
+		} else {
+			n.Elems = sa.Elems
+		}
+		n.Arr, n.Len = sa.Arr, sa.Len
+		if sa.Arr != sb.Arr && sa.Arr != nil && sb.Arr != nil {
+			// ite on arrays: copy b's version in when the guard is false
+			ln := sb.Len
+			if ln == nil {
+				ln = ex.idxConst(0)
+			}
+			n.Arr = ex.arrCopy(sa.Arr, ex.idxConst(0), sb.Arr, ex.idxConst(0), tb.Ite(g, ex.idxConst(0), ln))
+			if sa.Len != nil && sb.Len != nil {
+				n.Len = tb.Ite(g, sa.Len, sb.Len)
+			}
+		}
+		// map entries: keep a's, append b's extra entries guarded by not g; a's own extras guarded by g
+		n.Entries = ex.mergeEntries(g, sa.Entries, sb.Entries)
+		if len(sa.ChBuf) == len(sb.ChBuf) {
+			n.ChBuf = make([]Value, len(sa.ChBuf))
+			for i := range sa.ChBuf {
+				n.ChBuf[i] = ex.mergeNil(g, sa.ChBuf[i], sb.ChBuf[i])
+			}
+		} else {
+			n.ChBuf = sa.ChBuf
+		}
+		if sa.ChN != nil && sb.ChN != nil {
+			n.ChN = tb.Ite(g, sa.ChN, sb.ChN)
+			n.Closed = tb.Ite(g, sa.Closed, sb.Closed)
+		} else {
+			n.ChN, n.Closed = sa.ChN, sa.Closed
+		}
+		a.heap[o] = n
+	}
+	a.clock = tb.Ite(g, a.clock, b.clock)
+	for len(a.timers) < len(b.timers) {
+		a.timers = append(a.timers, timerState{due: tb.Int(0), active: tb.False, exists: tb.False})
+	}
+	for i := range b.timers {
+		ta, tbb := &a.timers[i], b.timers[i]
+		ta.due = tb.Ite(g, ta.due, tbb.due)
+		ta.active = tb.Ite(g, ta.active, tbb.active)
+		ta.exists = tb.Ite(g, ta.exists, tbb.exists)
+		if ta.fn == nil {
+			ta.fn = tbb.fn
+		} else if tbb.fn != nil {
+			ta.fn = ex.merge(g, ta.fn, tbb.fn).(*FuncV)
+		}
+		for len(ta.arms) < len(tbb.arms) {
+			ta.arms = append(ta.arms, tb.False)
+		}
+		for j := range tbb.arms {
+			ta.arms[j] = tb.Ite(g, ta.arms[j], tbb.arms[j])
+		}
+	}
+	a.G = tb.Or(a.G, b.G)
+}
+
+func (ex *Exec) mergeNil(g *Term, a, b Value) Value {
+	if a == nil {
+		return b
+	}
+	if b == nil {
+		return a
+	}
+	return ex.merge(g, a, b)
+}
+
+// mergeEntries merges two map logs that share a common prefix.
+func (ex *Exec) mergeEntries(g *Term, a, b []MapEntry) []MapEntry {
+	n := 0
+	for n < len(a) && n < len(b) && a[n].G == b[n].G && a[n].Del == b[n].Del && sameVal(a[n].Key, b[n].Key) && sameVal(a[n].Val, b[n].Val) {
+		n++
+	}
+	if n == len(a) && n == len(b) {
+		return a
+	}
+	out := append([]MapEntry(nil), a[:n]...)
+	for _, e := range a[n:] {
+		e.G = ex.tb.And(g, e.G)
+		out = append(out, e)
+	}
+	ng := ex.tb.Not(g)
+	for _, e := range b[n:] {
+		e.G = ex.tb.And(ng, e.G)
+		out = append(out, e)
+	}
+	return out
+}
+
+func sameVal(a, b Value) bool {
+	defer func() { recover() }()
+	return a == b
+}
+
+// mergeStatesG merges continuation b into a under guard g (g: a's world holds).
+func (ex *Exec) mergeStatesG(g *Term, a, b *State) {
+	for i := range a.frames {
+		fa, fb := a.frames[i], b.frames[i]
+		if fa == fb {
+			continue
+		}
+		fa = a.wframe(i)
+		for j := range fa.env {
+			va, vb := fa.env[j], fb.env[j]
+			if va == vb || vb == nil {
+				continue
+			}
+			if va == nil {
+				fa.env[j] = vb
+				continue
+			}
+			fa.env[j] = ex.merge(g, va, vb)
+		}
+		for j := range fa.defers {
+			da, db := fa.defers[j], fb.defers[j]
+			if da == db {
+				continue
+			}
+			nd := *da
+			nd.fn = ex.merge(g, da.fn, db.fn)
+			nd.args = make([]Value, len(da.args))
+			for k := range da.args {
+				nd.args[k] = ex.merge(g, da.args[k], db.args[k])
+			}
+			fa.defers[j] = &nd
+		}
+	}
+	ex.setGuard(a, ex.tb.Ite(g, a.G, b.G))
+}
+
+// enabledOf returns the enabledness of a parked continuation (against the current heap).
 func (ex *Exec) enabledOf(st *State) *Term {
 	if st.startup {
 		return ex.tb.True
@@ -375,169 +686,280 @@ func (ex *Exec) enabledOf(st *State) *Term {
 	return ex.tb.Restrict(si.enabled, st.ctx)
 }
 
-// Quiesce runs up to maxSteps scheduler steps. It returns the condition "something is still enabled".
-func (ex *Exec) Quiesce(maxSteps int) *Term {
+type candidate struct {
+	key string
+	th  *Thread
+	st  *State
+	tm  *timerRec
+	en  *Term
+}
+
+// candidates lists what can move in the (restored) world w, in a run-independent order.
+func (ex *Exec) candidates(w *World) []candidate {
+	tb := ex.tb
+	var cs []candidate
+	for i, st := range w.threads {
+		if st == nil {
+			continue
+		}
+		en := tb.And(st.G, ex.enabledOf(st))
+		cs = append(cs, candidate{key: "T|" + ex.sched.threads[i].Key, th: ex.sched.threads[i], st: st, en: en})
+	}
+	for _, tm := range ex.sched.timers {
+		en := tb.And(tm.exists, tm.active, tb.Le(tm.due, ex.clock))
+		if en.IsFalse() {
+			continue
+		}
+		cs = append(cs, candidate{key: "M|" + tm.key, tm: tm, en: en})
+	}
+	sort.SliceStable(cs, func(i, j int) bool { return cs[i].key < cs[j].key })
+	return cs
+}
+
+// Quiesce explores the interleavings from the current worlds for at most maxSteps steps and
+// returns the condition "something is still enabled" (false when every world quiesced).
+func (ex *Exec) Quiesce(maxSteps int) (*Term, []*World) {
 	tb := ex.tb
 	sc := ex.sched
-	step0 := sc.step
-	defer func() { sc.PhaseSteps = append(sc.PhaseSteps, sc.step-step0) }()
-	for n := 0; n < maxSteps; n++ {
-		type cand struct {
-			th  *Thread
-			st  *State
-			en  *Term
-			tmr *timerRec
-		}
-		var cands []cand
-		for _, th := range sc.threads {
-			for _, c := range th.conts {
-				en := ex.enabledOf(c)
-				cands = append(cands, cand{th: th, st: c, en: tb.And(c.G, en)})
-			}
-		}
-		for _, tm := range sc.timers {
-			en := tb.And(tm.exists, tm.active, tb.Le(tm.due, ex.clock))
-			cands = append(cands, cand{tmr: tm, en: en})
-		}
-		anyT := tb.False
-		for _, c := range cands {
-			anyT = tb.Or(anyT, c.en)
-		}
-		sc.lastAny = anyT
-		if anyT.IsFalse() || !ex.feasible(anyT) {
-			sc.lastAny = tb.False
-			return tb.False
+	traceStart := len(sc.Trace)
+	defer func() { sc.PhaseSteps = append(sc.PhaseSteps, len(sc.Trace)-traceStart) }()
+	// the initial world: the harness's current context (heap as it is now, the goroutines of
+	// the world the harness continues in, plus the goroutines it has just started)
+	w0 := &World{G: tb.True}
+	if ex.curWorld != nil {
+		w0 = ex.curWorld.clone()
+	}
+	if ex.baseG != nil {
+		w0.G = ex.baseG
+	}
+	for _, ns := range sc.pending {
+		w0.grow(ns.thread.ID + 1)
+		w0.threads[ns.thread.ID] = ns
+	}
+	sc.pending = nil
+	ex.snapshot(w0)
+	frontier := []*World{w0}
+	saveBase := ex.baseG
+	defer func() { ex.baseG = saveBase }()
+	var terminal []*World
+	still := tb.False
+	for depth := 0; len(frontier) > 0; depth++ {
+		if len(frontier) > sc.maxFront {
+			sc.maxFront = len(frontier)
 		}
 		if os.Getenv("VERIF_DEBUG") != "" {
-			nc := 0
-			for _, th := range sc.threads {
-				nc += len(th.conts)
+			fmt.Printf("[sched %6.1fs] depth %d worlds=%d threads=%d timers=%d terms=%d feas=%d segments=%d\n", time.Since(ex.start).Seconds(), depth, len(frontier), len(sc.threads), len(sc.timers), ex.tb.NumTerms(), ex.NFeas, sc.segments)
+		}
+		next := map[string]*World{}
+		var order []string
+		for _, w := range frontier {
+			sc.nWorlds++
+			ex.restore(w)
+			ex.baseG = nil
+			cands := ex.candidates(w)
+			anyEn := tb.False
+			for _, c := range cands {
+				anyEn = tb.Or(anyEn, c.en)
 			}
-			fmt.Printf("[sched %6.1fs] step %d threads=%d conts=%d timers=%d terms=%d feas=%d\n", time.Since(ex.start).Seconds(), sc.step, len(sc.threads), nc, len(sc.timers), ex.tb.NumTerms(), ex.NFeas)
-		}
-		nT := len(sc.threads)
-		nSlots := nT + len(sc.timers)
-		keys := make([]string, nSlots)
-		for _, th := range sc.threads {
-			keys[th.ID] = th.Key
-		}
-		for _, tm := range sc.timers {
-			keys[nT+tm.id] = "timer|" + tm.key
-		}
-		sc.SlotKeys = append(sc.SlotKeys, keys)
-		var sv *Term
-		if sc.FixedKeys != nil {
-			// concrete replay of a model: pick the slot with the recorded identity
-			choice := -1
-			if sc.step < len(sc.FixedKeys) {
-				for i, k := range keys {
-					if k == sc.FixedKeys[sc.step] {
-						choice = i
-					}
+			if !anyEn.IsTrue() {
+				// (part of) this world is quiescent
+				g := tb.And(w.G, tb.Not(anyEn))
+				if !g.IsFalse() {
+					t := w.clone()
+					t.G = g
+					t.heap, t.clock, t.timers = w.heap, w.clock, w.timers
+					terminal = append(terminal, t)
 				}
 			}
-			sv = tb.Int(int64(choice))
-			if choice < 0 {
-				// the model says nothing about this step: end of the concrete schedule
-				sc.step++
-				sc.vars = append(sc.vars, sv)
-				sc.nThreads = append(sc.nThreads, nSlots)
-				return tb.False
-			}
-			if choice >= nT {
-				sc.Trace = append(sc.Trace, TraceStep{K: "M", I: choice - nT})
-			} else {
-				sc.Trace = append(sc.Trace, TraceStep{K: "T", I: choice})
-			}
-		} else {
-			sv = tb.Var(fmt.Sprintf("sched!%d", sc.step), SInt, big0, bigInt(int64(nSlots-1)))
-		}
-		sc.vars = append(sc.vars, sv)
-		sc.nThreads = append(sc.nThreads, nSlots)
-		sc.step++
-		// the schedule picks an enabled slot whenever there is one
-		pickOK := tb.False
-		perSlot := map[int]*Term{}
-		for _, c := range cands {
-			slot := 0
-			if c.tmr != nil {
-				slot = nT + c.tmr.id
-			} else {
-				slot = c.th.ID
-			}
-			if perSlot[slot] == nil {
-				perSlot[slot] = tb.False
-			}
-			perSlot[slot] = tb.Or(perSlot[slot], c.en)
-		}
-		for slot, en := range perSlot {
-			pickOK = tb.Or(pickOK, tb.And(tb.Eq(sv, tb.Int(int64(slot))), en))
-		}
-		ex.addAssume(tb.True, tb.Or(tb.Not(anyT), pickOK))
-		// threads: release continuations
-		var released []*State
-		for _, th := range sc.threads {
-			if len(th.conts) == 0 {
+			if anyEn.IsFalse() {
 				continue
 			}
-			pick := tb.Eq(sv, tb.Int(int64(th.ID)))
-			old := th.conts
-			th.conts = nil
-			th.index = map[string]*State{}
-			for _, c := range old {
-				en := ex.enabledOf(c)
-				run := tb.And(c.G, en, pick)
-				stay := tb.And(c.G, tb.Not(tb.And(en, pick)))
-				if !run.IsFalse() {
-					r := ex.fork(c, run)
-					r.resume = true
+			if depth >= maxSteps {
+				still = tb.Or(still, tb.And(w.G, anyEn))
+				continue
+			}
+			// the schedule's choice in this world
+			cname := fmt.Sprintf("ch!%s", shortHash(ex.worldKey(w)+fmt.Sprint(depth)))
+			sc.ChoiceNames = append(sc.ChoiceNames, cname)
+			choice := ex.freshInt(cname, big0, bigInt(255))
+			worldAccs := make([][]accessRec, len(cands))
+			for ci, c := range cands {
+				if c.en.IsFalse() {
+					continue
+				}
+				base := tb.And(w.G, tb.Eq(choice, ex.intConstLike(choice, int64(ex.slotID(c.key)))), c.en)
+				if base.IsFalse() {
+					continue
+				}
+				if ex.Fixed != nil && !choice.IsConst() {
+					// concrete replay: the model did not fix this choice => stop here
+					if os.Getenv("VERIF_DEBUG") != "" {
+						fmt.Printf("[concrete] choice %s not fixed by the model at depth %d (world %s)\n", cname, depth, ex.worldKey(w))
+					}
+					continue
+				}
+				if os.Getenv("VERIF_DEBUG") == "5" && depth >= 18 && depth <= 19 {
+					fmt.Printf("[cand] depth=%d cand=%s en=%s world=%s\n", depth, c.key, ex.tb.Show(c.en), ex.worldKey(w))
+				}
+				ex.restore(w)
+				ex.baseG = base
+				sc.running, sc.outcomes, sc.exits, sc.spawned = true, nil, nil, nil
+				sc.segments++
+				sc.step = depth + 1
+				if c.tm != nil {
+					ex.fireTimer(c.tm, tb.True)
+					if ex.Fixed != nil {
+						sc.Trace = append(sc.Trace, TraceStep{K: "M", I: c.tm.id})
+					}
+				} else {
+					c.th.Steps++
+					r := ex.fork(c.st, c.st.G)
+					r.resume = !c.st.startup
 					r.startup = false
-					r.locks = c.locks
-					r.segStep = sc.step
-					if c.startup {
-						r.resume = false
+					r.locks = c.st.locks
+					r.segStep = sc.segments
+					if ex.Fixed != nil {
+						sc.Trace = append(sc.Trace, TraceStep{K: "T", I: c.th.ID})
 					}
-					released = append(released, r)
+					ex.push(r)
+					ex.runWorklist()
 				}
-				if !stay.IsFalse() {
-					ex.setGuard(c, stay)
-					th.conts = append(th.conts, c)
-					ex.position(c)
-					th.index[c.key] = c
+				sc.running = false
+				if sc.Races {
+					worldAccs[ci] = sc.log
+				}
+				sc.log = nil
+				// successor worlds: one per outcome of the moving thread
+				type outc struct {
+					st   *State
+					exit bool
+					g    *Term
+				}
+				var outs []outc
+				if c.tm != nil {
+					outs = append(outs, outc{g: tb.True})
+				} else {
+					for _, o := range sc.outcomes {
+						outs = append(outs, outc{st: o, g: o.G})
+					}
+					for _, g := range sc.exits {
+						outs = append(outs, outc{exit: true, g: g})
+					}
+				}
+				for _, o := range outs {
+					og := tb.And(base, o.g)
+					if og.IsFalse() {
+						continue
+					}
+					// a goroutine started under a condition exists in one successor world and
+					// not in the other
+					type variant struct {
+						g   *Term
+						ths []*State
+					}
+					vars := []variant{{g: og}}
+					for _, ns := range sc.spawned {
+						if id := ns.thread.ID; id < len(w.threads) && (w.threads[id] != nil || w.exited[id]) {
+							// a goroutine identity is created at most once per execution: this
+							// start belongs to histories that are not part of this world
+							continue
+						}
+						var nv []variant
+						for _, v := range vars {
+							with := tb.And(v.g, ns.G)
+							if !with.IsFalse() {
+								ps := ex.fork(ns, tb.True)
+								ps.startup = true
+								nv = append(nv, variant{g: with, ths: append(append([]*State(nil), v.ths...), ps)})
+							}
+							without := tb.And(v.g, tb.Not(ns.G))
+							if !without.IsFalse() {
+								nv = append(nv, variant{g: without, ths: v.ths})
+							}
+						}
+						vars = nv
+					}
+					for _, v := range vars {
+						nw := w.clone()
+						nw.depth = depth + 1
+						nw.G = v.g
+						if c.tm != nil {
+							if nw.fired == nil {
+								nw.fired = map[string]int{}
+							}
+							nw.fired[c.tm.key]++
+						}
+						nw.grow(len(sc.threads))
+						if c.tm == nil {
+							if o.exit {
+								nw.threads[c.th.ID] = nil
+								nw.exited[c.th.ID] = true
+							} else {
+								ps := ex.fork(o.st, tb.True)
+								ps.locks = o.st.locks
+								nw.threads[c.th.ID] = ps
+							}
+						}
+						for _, ns := range v.ths {
+							nw.grow(ns.thread.ID + 1)
+							nw.threads[ns.thread.ID] = ns
+							nw.exited[ns.thread.ID] = false
+						}
+						ex.baseG = nil
+						ex.snapshot(nw)
+						k := ex.worldKey(nw)
+						if old, ok := next[k]; ok {
+							ex.mergeWorlds(old, nw)
+							ex.NMerges++
+						} else {
+							nw.key = k
+							next[k] = nw
+							order = append(order, k)
+						}
+					}
 				}
 			}
-		}
-		// timers
-		for _, tm := range sc.timers {
-			pick := tb.Eq(sv, tb.Int(int64(nT+tm.id)))
-			fire := tb.And(tm.exists, tm.active, tb.Le(tm.due, ex.clock), pick)
-			if fire.IsFalse() {
-				continue
+			ex.baseG = nil
+			if sc.Races {
+				ex.restore(w)
+				ex.raceObligationsFor(w, cands, worldAccs)
 			}
-			ex.fireTimer(tm, fire)
 		}
-		for _, r := range released {
-			sc.segments++
-			r.thread.Steps++
-			ex.push(r)
-			ex.runWorklist() // run each segment to its next scheduling points
-		}
-		if sc.Races {
-			ex.raceObligations(sc.step)
+		frontier = frontier[:0]
+		for _, k := range order {
+			frontier = append(frontier, next[k])
 		}
 	}
-	// what is still enabled after the bound
-	anyT := tb.False
-	for _, th := range sc.threads {
-		for _, c := range th.conts {
-			anyT = tb.Or(anyT, tb.And(c.G, ex.enabledOf(c)))
+	if os.Getenv("VERIF_DEBUG") == "4" {
+		for _, w := range terminal {
+			fmt.Printf("[terminal] depth=%d G=%s key=%s\n", w.depth, ex.tb.Show(w.G)[:60], ex.worldKey(w))
 		}
 	}
-	for _, tm := range sc.timers {
-		anyT = tb.Or(anyT, tb.And(tm.exists, tm.active, tb.Le(tm.due, ex.clock)))
+	return still, terminal
+}
+
+// slotID numbers the things that can move (threads, timers) by identity key; a concrete replay
+// reuses the numbering of the symbolic run it replays.
+func (ex *Exec) slotID(key string) int {
+	sc := ex.sched
+	if sc.SlotIDs == nil {
+		sc.SlotIDs = map[string]int{}
 	}
-	sc.lastAny = anyT
-	return anyT
+	if id, ok := sc.SlotIDs[key]; ok {
+		return id
+	}
+	id := len(sc.SlotIDs)
+	sc.SlotIDs[key] = id
+	return id
+}
+
+func shortHash(s string) string {
+	h := uint64(1469598103934665603)
+	for i := 0; i < len(s); i++ {
+		h ^= uint64(s[i])
+		h *= 1099511628211
+	}
+	return fmt.Sprintf("%x", h)
 }
 
 // armTimer records that the timer was (re)armed at the current program point under guard g.
@@ -570,23 +992,24 @@ func (ex *Exec) fireTimer(tm *timerRec, fire *Term) {
 	tb := ex.tb
 	tm.active = tb.And(tm.active, tb.Not(fire))
 	tm.fired++
+	fs := &State{}
+	ex.setGuard(fs, fire)
 	if tm.fn != nil {
-		// one callback goroutine per arming of the timer (the firings of one arming at different
-		// scheduler steps are mutually exclusive)
+		// one callback goroutine per arming of the timer
 		for i, a := range tm.arms {
 			g := tb.And(fire, a.cur)
 			if g.IsFalse() {
 				continue
 			}
-			fs := &State{}
-			ex.setGuard(fs, g)
-			ex.spawn(fs, fmt.Sprintf("timer%d.arm%d", tm.id, i), tm.fn, nil, token.NoPos)
+			as := &State{}
+			ex.setGuard(as, g)
+			_ = i
+			ex.spawn(as, fmt.Sprintf("timer[%s].arm[%s]", tm.key, a.key), tm.fn, nil, token.NoPos)
+			a.cur = tb.And(a.cur, tb.Not(fire))
 		}
 		return
 	}
 	// channel timer: non-blocking send of the current time
-	fs := &State{}
-	ex.setGuard(fs, fire)
 	room := ex.ilt(tm.ch.ChN, ex.idxConst(int64(tm.ch.ChCap)))
 	ex.sendEffect(fs, tm.ch, ex.clock, tb.And(fire, room))
 }
@@ -699,60 +1122,37 @@ func locksDisjoint(a, b []lockRec) bool {
 	return true
 }
 
-// raceObligations examines the accesses of the segments executed in one scheduler step.
-func (ex *Exec) raceObligations(step int) {
-	sc := ex.sched
+// raceObligationsFor examines the accesses of the segments that are co-enabled in one world.
+func (ex *Exec) raceObligationsFor(w *World, cands []candidate, accs [][]accessRec) {
 	tb := ex.tb
-	var cur []accessRec
-	for _, a := range sc.log {
-		if a.step == step {
-			cur = append(cur, a)
-		}
-	}
-	sc.log = nil
-	if len(cur) == 0 {
-		return
-	}
-	sv := sc.vars[step-1]
-	byObj := map[int][]accessRec{}
-	for _, a := range cur {
-		byObj[a.obj.ID] = append(byObj[a.obj.ID], a)
-	}
-	ids := make([]int, 0, len(byObj))
-	for id := range byObj {
-		ids = append(ids, id)
-	}
-	sort.Ints(ids)
 	seen := map[string]bool{}
-	for _, id := range ids {
-		as := byObj[id]
-		for i := 0; i < len(as); i++ {
-			for j := i + 1; j < len(as); j++ {
-				a, b := as[i], as[j]
-				if a.thread == b.thread || (!a.write && !b.write) || (a.atomic && b.atomic) {
-					continue
+	for i := 0; i < len(cands); i++ {
+		for j := i + 1; j < len(cands); j++ {
+			if cands[i].th == nil || cands[j].th == nil {
+				continue
+			}
+			for _, a := range accs[i] {
+				for _, b := range accs[j] {
+					if a.obj != b.obj || (!a.write && !b.write) || (a.atomic && b.atomic) {
+						continue
+					}
+					if !slotsOverlap(a.slot, b.slot) || !locksDisjoint(a.locks, b.locks) {
+						continue
+					}
+					key := fmt.Sprintf("%s|%s|%d|%s", a.pos, b.pos, a.obj.ID, a.slot)
+					if seen[key] {
+						continue
+					}
+					both := tb.And(w.G, cands[i].en, cands[j].en, a.g, b.g)
+					if both.IsFalse() {
+						continue
+					}
+					seen[key] = true
+					o := &Obligation{Kind: "race", Label: fmt.Sprintf("conflicting accesses to %s%s: %s (%s,%s) vs %s (%s,%s)", a.obj.Site, a.slot, a.pos, cands[i].th.Name, rw(a.write), b.pos, cands[j].th.Name, rw(b.write)),
+						G: both, Cond: tb.False, NAssume: len(ex.assumes), Pos: a.pos}
+					o.KF = append(o.KF, ex.activeKF...)
+					ex.Obligations = append(ex.Obligations, o)
 				}
-				if !slotsOverlap(a.slot, b.slot) || !locksDisjoint(a.locks, b.locks) {
-					continue
-				}
-				key := fmt.Sprintf("%s|%s|%d|%s", a.pos, b.pos, id, a.slot)
-				if seen[key] {
-					continue
-				}
-				ga := tb.Subst(a.g, map[int]*Term{sv.ID: tb.Int(int64(a.thread))})
-				gb := tb.Subst(b.g, map[int]*Term{sv.ID: tb.Int(int64(b.thread))})
-				both := tb.And(ga, gb)
-				if both.IsFalse() {
-					continue
-				}
-				seen[key] = true
-				o := &Obligation{Kind: "race", Label: fmt.Sprintf("conflicting accesses to %s%s: %s (T%d,%s) vs %s (T%d,%s)", a.obj.Site, a.slot, a.pos, a.thread, rw(a.write), b.pos, b.thread, rw(b.write)),
-					G: both, Cond: tb.False, NAssume: len(ex.assumes) - 1, Pos: a.pos}
-				// the pick assumption of this step (last assumption added before the segments ran) is excluded
-				// by construction: NAssume counts assumptions; race guards have sv substituted away.
-				o.NAssume = len(ex.assumes)
-				o.KF = append(o.KF, ex.activeKF...)
-				ex.Obligations = append(ex.Obligations, o)
 			}
 		}
 	}
@@ -781,29 +1181,53 @@ func init() {
 		if !ok {
 			panic(ex.unsupported("vQuiesce with symbolic bound"))
 		}
-		still := ex.Quiesce(int(n))
-		if !still.IsFalse() {
-			o := &Obligation{Kind: "stepbound", Label: fmt.Sprintf("threads still enabled after %d scheduler steps", ex.sched.step), G: still, Cond: ex.tb.False, NAssume: len(ex.assumes), Pos: ex.posString(c.pos)}
-			ex.Obligations = append(ex.Obligations, o)
-			// the harness continues in the worlds that did quiesce
-			ex.addAssume(ex.tb.True, ex.tb.Not(still))
+		if c.st.thread != nil {
+			panic(ex.unsupported("vQuiesce called from a goroutine"))
 		}
-		return nil, true
+		still, terminal := ex.Quiesce(int(n))
+		if !still.IsFalse() {
+			o := &Obligation{Kind: "stepbound", Label: fmt.Sprintf("goroutines still enabled after %d scheduler steps", n), G: still, Cond: ex.tb.False, NAssume: len(ex.assumes), Pos: ex.posString(c.pos)}
+			ex.Obligations = append(ex.Obligations, o)
+		}
+		// the harness continues once per quiescent world, on that world's heap
+		mainSt := c.st
+		mainSt.wtop().pc++
+		saveWL, saveIdx, saveBase, saveCur := ex.wl, ex.wlIndex, ex.baseG, ex.curWorld
+		for _, w := range terminal {
+			if w.stillEnabled {
+				continue
+			}
+			ex.restore(w)
+			ex.baseG = w.G
+			ex.curWorld = w
+			ns := ex.fork(mainSt, mainSt.G)
+			ex.wl, ex.wlIndex = nil, map[string]*State{}
+			ex.push(ns)
+			ex.runWorklist()
+		}
+		ex.wl, ex.wlIndex, ex.baseG, ex.curWorld = saveWL, saveIdx, saveBase, saveCur
+		return nil, false
 	}
 	h["vDone"] = func(ex *Exec, c *callCtx) (Value, bool) {
 		id, ok := ex.termInt64(c.args[0].(*Term))
 		if !ok || int(id) >= len(ex.sched.threads) {
 			panic(ex.unsupported("vDone: bad thread id"))
 		}
-		return ex.tb.Restrict(ex.sched.threads[id].exit, c.st.ctx), true
+		w := ex.curWorld
+		return ex.tb.Bool(w != nil && int(id) < len(w.exited) && w.exited[id]), true
 	}
-	// vAllDone: every thread created so far has terminated
+	// vAllDone: every goroutine that exists in this world has terminated
 	h["vAllDone"] = func(ex *Exec, c *callCtx) (Value, bool) {
-		r := ex.tb.True
-		for _, th := range ex.sched.threads {
-			r = ex.tb.And(r, ex.tb.Or(ex.tb.Not(th.created), th.exit))
+		w := ex.curWorld
+		if w == nil {
+			return ex.tb.Bool(len(ex.sched.pending) == 0), true
 		}
-		return r, true
+		for _, st := range w.threads {
+			if st != nil {
+				return ex.tb.False, true
+			}
+		}
+		return ex.tb.True, true
 	}
 	// vClosed: ghost observation of a channel's closed flag (no scheduling point)
 	h["vClosed"] = func(ex *Exec, c *callCtx) (Value, bool) {
@@ -823,4 +1247,11 @@ func init() {
 		ex.clock = ex.tb.Ite(c.st.G, ex.tb.Add(ex.clock, d), ex.clock)
 		return nil, true
 	}
+}
+
+func (ex *Exec) schedConst(v int64) *Term {
+	if ex.BV {
+		return ex.tb.BV(8, uint64(v)&0xff)
+	}
+	return ex.tb.Int(v)
 }
